@@ -58,12 +58,15 @@ class Cli:
     }
 
     MODEL_GENERATOR_MAPPING: Dict[str, Type[GenericModelCodeGenerator]] = {
-        "base": convert_args(GenericModelCodeGenerator, post_init_converters=bool_js_style),
-        "attrs": convert_args(AttrsModelCodeGenerator, meta=bool_js_style, post_init_converters=bool_js_style),
+        # (every on/off keyword of a generator is converted: given as text on the command line, "false" would be true)
+        "base": convert_args(GenericModelCodeGenerator, post_init_converters=bool_js_style,
+                             convert_unicode=bool_js_style),
+        "attrs": convert_args(AttrsModelCodeGenerator, meta=bool_js_style, post_init_converters=bool_js_style,
+                              convert_unicode=bool_js_style),
         "dataclasses": convert_args(DataclassModelCodeGenerator, meta=bool_js_style,
-                                    post_init_converters=bool_js_style),
-        "pydantic": convert_args(PydanticModelCodeGenerator),
-        "sqlmodel": convert_args(SqlModelCodeGenerator),
+                                    post_init_converters=bool_js_style, convert_unicode=bool_js_style),
+        "pydantic": convert_args(PydanticModelCodeGenerator, convert_unicode=bool_js_style),
+        "sqlmodel": convert_args(SqlModelCodeGenerator, convert_unicode=bool_js_style),
     }
 
     def __init__(self):
